@@ -52,6 +52,21 @@ def quiet():
     return contextlib.redirect_stdout(io.StringIO())
 
 
+def timed(fn):
+    """Adds the CPU time of a shard to the counter cpu_ms (wall time says little on a shared box)."""
+    import functools
+    import time
+
+    @functools.wraps(fn)
+    def wrapper(shard):
+        t0 = time.process_time()
+        res = fn(shard)
+        part = res[0] if isinstance(res, tuple) else res
+        part.bump("cpu_ms", int(1000 * (time.process_time() - t0)))
+        return res
+    return wrapper
+
+
 # --------------------------------------------------------------------------------------------
 # reference tables (built in the parent before forking)
 # --------------------------------------------------------------------------------------------
@@ -167,9 +182,10 @@ def call_bisc(kind, A, m, n):
         return B.bisc(arg, m, n)
 
 
-def check_case(part, A, m, n, U, extras=True):
+def check_case(part, A, m, n, U, kinds=KINDS):
     """All oracles for one input.  A: tuple of permutations (tuples) sorted by (length, lex),
-    non-empty; 1 <= m <= n <= U.  Returns (learned entries, nontrivial flag)."""
+    non-empty; 1 <= m <= n <= U.  kinds: the other input representations to compare with.
+    Returns (learned entries, nontrivial flag)."""
     Perm, MeshPatt, B, S = _lib()
     case = {"A": A, "m": m, "n": n, "U": U}
     T = table(U)
@@ -225,14 +241,14 @@ def check_case(part, A, m, n, U, extras=True):
     nontrivial = 1 if (ncells and nbad) else 0
     for (j, p, H) in learned:
         part.outcomes.add((j, p, H))
-    if not extras:
-        return learned, nontrivial
 
     # --- representations
     maxlen = max(len(p) for p in A)
-    for kind in KINDS:
+    part.bump("bisc_calls")
+    for kind in kinds:
         if kind == "n_omitted" and maxlen != n:
             continue
+        part.bump("bisc_calls")
         try:
             N2 = norm(call_bisc(kind, A, m, n))
         except Malformed as exc:
@@ -243,7 +259,6 @@ def check_case(part, A, m, n, U, extras=True):
             continue
         if N2 != N:
             part.violation("repr", dict(case, kind=kind), {"list": show(N), kind: show(N2)})
-    part.bump("bisc_calls", 1 + len(KINDS) - (0 if maxlen == n else 1))
 
     # --- create_bisc_input: the partition of S<=U
     def pred(perm):
@@ -364,13 +379,18 @@ def check_case(part, A, m, n, U, extras=True):
     return learned, nontrivial
 
 
-def run_cases(cases, U_of=None, extras=True):
-    """cases: iterable of (A, m, n).  Returns (Partial, set of learned (pattern, shadings))."""
+def run_cases(cases, all_kinds_always=False):
+    """cases: iterable of (A, m, n).  Returns (Partial, set of learned (pattern, shadings)).
+    The other input representations are compared at every m (subsets3) or at m = min(2, n)
+    (the larger families: the normalisation of the input does not depend on m)."""
+    import time
+    t0 = time.process_time()
     part = Partial()
     entries = set()
     for A, m, n in cases:
         U = universe(n)
-        learned, nt = check_case(part, A, m, n, U, extras)
+        kinds = KINDS if (all_kinds_always or m == min(2, n)) else ()
+        learned, nt = check_case(part, A, m, n, U, kinds)
         part.add(1, nt)
         by = {}
         for j, p, H in learned:
@@ -380,6 +400,7 @@ def run_cases(cases, U_of=None, extras=True):
         if nt:
             part.sample({"A": A, "m": m, "n": n, "learned": [[p, sorted(H)] for _, p, H in learned]},
                         cap=1)
+    part.bump("cpu_ms", int(1000 * (time.process_time() - t0)))
     return part, entries
 
 
@@ -427,7 +448,7 @@ def shard_subsets3(shard):
         for n in range(1, nmax + 1):
             for m in range(1, n + 1):
                 cases.append((A, m, n))
-    return run_cases(cases)
+    return run_cases(cases, all_kinds_always=True)
 
 
 def n4_plan(quick):
@@ -657,6 +678,7 @@ def mesh_pool(k, limit=None):
     return out
 
 
+@timed
 def shard_priv_perm(shard):
     """single shadings: every mesh pattern of the pool x every text of the lengths."""
     k, lo, hi, tlens, limit = shard
@@ -673,6 +695,7 @@ def shard_priv_perm(shard):
 _ENTRIES = []
 
 
+@timed
 def shard_priv_learned(shard):
     """learned entries (pattern, list of shadings) x every text."""
     lo, hi, tmax = shard
@@ -686,6 +709,7 @@ def shard_priv_learned(shard):
     return part
 
 
+@timed
 def shard_priv_mesh(shard):
     kp, lo, hi, plimit, kq, qlimit = shard
     part = Partial()
@@ -698,6 +722,7 @@ def shard_priv_mesh(shard):
     return part
 
 
+@timed
 def shard_priv_mesh_two(shard):
     """two shadings of the small pattern (the answer is the disjunction)."""
     kp, lo, hi, plimit, kq = shard
@@ -713,6 +738,7 @@ def shard_priv_mesh_two(shard):
     return part
 
 
+@timed
 def shard_priv_maximal(shard):
     n, lo, hi = shard
     part = Partial()
@@ -872,6 +898,7 @@ def check_auto(part, spec, form):
     return N
 
 
+@timed
 def shard_auto(shard):
     spec, form = shard
     part = Partial()
